@@ -44,7 +44,8 @@ TYPE_PREFIX_ALIASES = [
     ("select_multiple_from_file ", ["select multiple from file "]),
 ]
 TYPE_WHOLE_ALIASES = {
-    "integer": ["int"], "text": ["string", "q string"], "geopoint": ["gps", "location", "q geopoint", "q location"], "image": ["photo", "add image prompt", "add photo prompt"], "audio": ["add audio prompt"], "video": ["add video prompt"],
+    "integer": ["int"], "text": ["string", "q string"], "geopoint": ["gps", "location", "q geopoint", "q location"], "image": ["photo", "add image prompt", "add photo prompt", "q image", "q picture"], "audio": ["add audio prompt", "q audio"], "video": ["add video prompt", "q video"],
+    "geoshape": ["q geoshape"], "geotrace": ["q geotrace"],
     "file": ["add file prompt"], "deviceid": ["imei"], "begin group": ["begin_group"], "end group": ["end_group"],
     "begin repeat": ["begin_repeat", "begin looped group", "begin lgroup"], "end repeat": ["end_repeat", "end looped group", "end lgroup"],
 }
